@@ -1087,11 +1087,27 @@ class CircuitDAG(CircuitBase):
                     reg_type=op["q_registers_type"][0],
                 )
             else:
-                gate = ops.name_to_class_map(op["type"])
-                gate = gate()
-                gate.q_registers = op["q_registers"]
-                gate.q_registers_type = op["q_registers_type"]
-                gate.c_registers = op["c_registers"]
+                gate_class = ops.name_to_class_map(op["type"])
+                q_regs = op["q_registers"]
+                q_types = op["q_registers_type"]
+                c_regs = op["c_registers"]
+                if issubclass(gate_class, ops.ClassicalControlledPairOperationBase):
+                    gate = gate_class(
+                        control=q_regs[0],
+                        control_type=q_types[0],
+                        target=q_regs[1],
+                        target_type=q_types[1],
+                        c_register=c_regs[0],
+                    )
+                elif issubclass(gate_class, ops.ControlledPairOperationBase):
+                    gate = gate_class(
+                        control=q_regs[0],
+                        control_type=q_types[0],
+                        target=q_regs[1],
+                        target_type=q_types[1],
+                    )
+                else:
+                    gate = gate_class(register=q_regs[0], reg_type=q_types[0])
 
             circuit.add(gate)
 
